@@ -109,6 +109,8 @@ def step (st : St) (line : String) : St × String :=
               else if o == "busy" then (st, "timeout") else (st, "status=500"))
          | .postImport =>
            let (st, e) := st.ensureDB name
+           -- Import waits for the write lock first (a granted halt lock holds it until it is released or expires)
+           if (e.locks.tryAcquireWriteLock e.walMode).2.isNone then (st, "timeout") else
            (match bodyBytes body with
             | none => (st, "status=500")     -- not a database image: Import refuses it
             | some data =>
@@ -152,6 +154,13 @@ def step (st : St) (line : String) : St × String :=
          | .postStream =>
            let okBody : Bool :=
              if body == "posmap" then true
+             else if body.startsWith "posmapcut:" then
+               -- the node's own position map (databases in name order), cut after n bytes
+               let n := (body.drop 10).toString.toNat?.getD 0
+               let dbs := ((if st.eng.hasDB then [("db", st.eng)] else []) ++ st.others).toArray.qsort (fun a b => a.1 < b.1) |>.toList
+               let ents : List Chunk.Entry := dbs.map fun p => ⟨p.1.toUTF8.toList, p.2.posTxid, p.2.posChk.toNat⟩
+               let bytes := (Chunk.encodePosMap ents).take n
+               (match Chunk.decodePosMap bytes with | .ok _ _ => true | .err _ => false)
              else if body.startsWith "posmap" || body.startsWith "ltx:" then false
              else match EngineD.bytesOf body with
                | some b => (match Chunk.decodePosMap b.toList with | .ok _ _ => true | .err _ => false)
